@@ -8,6 +8,13 @@ m = json.load(open(os.path.join(d, "meta.json")))
 props = list(m.get("checks", {}).keys()) or [m["property"]]
 assert subprocess.run("git -C /repo status --porcelain --untracked-files=no", shell=True, capture_output=True).stdout.strip() == b""
 subprocess.run("git -C /repo apply %s/patch.diff" % d, shell=True, check=True)
+# the evidence files committed in /verif describe runs on /repo itself: what the runs below write is put back afterwards
+import shutil, tempfile
+evidence_backup = tempfile.mkdtemp(prefix="evidence-backup-")
+for p_ in props:
+    f_ = os.path.join(V, "evidence", p_ + ".json")
+    if os.path.exists(f_):
+        shutil.copy(f_, evidence_backup)
 try:
     for p in props:
         r = subprocess.run("python3 check.py %s --tier quick" % p, shell=True, cwd=V, capture_output=True, timeout=3000)
@@ -17,6 +24,9 @@ try:
         m["ran"].append("re-run after strengthening: git -C /repo apply patch.diff; python3 check.py %s --tier quick -> exit %d, %d VIOLATION line(s)" % (p, r.returncode, len(viol)))
 finally:
     subprocess.run("git -C /repo checkout -- .", shell=True)
+    for f_ in os.listdir(evidence_backup):
+        shutil.copy(os.path.join(evidence_backup, f_), os.path.join(V, "evidence", f_))
+    shutil.rmtree(evidence_backup, ignore_errors=True)
 m["caught_by"] = [p for p, r in m["checks"].items() if r["exit"] == 1]
 if len(sys.argv) > 2:
     m["history"] = sys.argv[2]
